@@ -143,3 +143,11 @@ pub(crate) static EMPTY_TABLE: BuiltHuffmanTable = BuiltHuffmanTable {
     lengths: Vec::new(),
     bits: Vec::new(),
 };
+
+#[cfg(jxl_oxide_verif)]
+impl BuiltHuffmanTable {
+    /// Verification hook H6: `(lengths, left-aligned code bits)` indexed by symbol.
+    pub fn verif_tables(&self) -> (&[u8], &[u64]) {
+        (&self.lengths, &self.bits)
+    }
+}
